@@ -194,8 +194,16 @@ def run(ctx):
                                 c_unused = ("ref", ("cs", "multiboot2::elf_sections::ElfSectionType::Unused", "Unused", ()))
                                 if a1 == c_unused and a0[0] == "ref" and a0[1][0] == "call" and a0[1][1] == st_key and a0[1][2] == (("ref", pl),):
                                     skip_ok = True
-                    none_ok = len(nones[0].own) == 1 and nones[0].own[0][0] == "cmp" and nones[0].own[0][1] == "Eq" and N(nones[0].own[0])[3] == ("c", 0) and \
-                        is_phi(N(nones[0].own[0])[2], "remaining_sections")
+                    def is_zero_test(f):
+                        # remaining == 0, however spelt: == 0, < 1, <= 0, or `remaining.checked_sub(1)` answering None
+                        f = N(f)
+                        if f[0] != "cmp":
+                            return False
+                        if is_phi(f[2], "remaining_sections"):
+                            return (f[1], f[3]) in (("Eq", ("c", 0)), ("Lt", ("c", 1)), ("Le", ("c", 0)))
+                        return f[1] == "Eq" and f[3] == ("c", 0) and f[2][0] == "discr" and f[2][1][0] == "checked" and f[2][1][1] == "Sub" and \
+                            is_phi(f[2][1][2][0], "remaining_sections") and f[2][1][2][1] == ("c", 1)
+                    none_ok = 1 <= len(nones[0].own) <= 2 and all(is_zero_test(f) for f in nones[0].own)
         ctx.check(ok, "E2", "loop", "next() has one loop; per iteration exactly one `current_section += entry_size` (bytes) and one `remaining_sections -= 1`",
                   B.site(), how=why, why=why)
         ctx.check(sec_ok, "E2", "section", "the section handed out is built from the pre-increment cursor, the iterator's entry_size and string-section pointer", B.site(),
